@@ -415,3 +415,30 @@ def mutating_sessions(rep):
                                    "what": f"the same choices on the same story show different things: own copy {ref}, first engine on the shared object {first}, second engine on it {second}"})
     rep.coverage.setdefault("families", {})["c16-mutating"] = {"cases": n}
     rep.coverage["evaluations"] = rep.coverage.get("evaluations", 0) + n
+
+
+def inputs_dict_probe(rep):
+    """the dictionary a front end hands to submit_inputs stays the front end's: the engine neither keeps it nor writes into it,
+    and two engines given the same dictionary object do not see each other's later submissions"""
+    from bardic.runtime.engine import BardEngine
+    n = 0
+    try:
+        story = corr_play.compile_source(INPUT_STORY)
+        with quiet():
+            e1, e2 = BardEngine(copy.deepcopy(story)), BardEngine(copy.deepcopy(story))
+            host = {"nm": "Ada"}
+            e1.submit_inputs(host)
+            e2.submit_inputs(host)
+            e1.submit_inputs({"nm": "Grace", "age": "7"})
+            o1, o2 = e1.choose(0).content, e2.choose(0).content
+        n += 1
+        if host != {"nm": "Ada"}:
+            rep.violations.append({"cls": None, "family": "c16-inputs-dict", "source": INPUT_STORY,
+                                   "what": f"submit_inputs changed the caller's dictionary: {host} (it was {{'nm': 'Ada'}})"})
+        if "Grace" not in o1 or "Ada" not in o2:
+            rep.violations.append({"cls": None, "family": "c16-inputs-dict", "source": INPUT_STORY,
+                                   "what": f"engine 1 (submitted Ada, then Grace) shows {o1!r}; engine 2 (submitted Ada only, the same dictionary object) shows {o2!r}"})
+    except Exception as ex:  # noqa
+        rep.violations.append({"cls": None, "family": "c16-inputs-dict", "source": INPUT_STORY, "what": f"probe failed: {type(ex).__name__}: {ex}"})
+    rep.coverage.setdefault("families", {})["c16-inputs-dict"] = {"cases": n}
+    rep.coverage["evaluations"] = rep.coverage.get("evaluations", 0) + n
